@@ -141,7 +141,10 @@ __CPROVER_ensures((__cmd != NULL && g_parse_called && g_parse_ret != 0) ==> __CP
 #define C02_TOP_CLAUSES \
 __CPROVER_ensures((NOCB(__cmd) && __CPROVER_return_value == 0) ==> (g_vc_key == __cmd->c.key && g_vc_alg == __cmd->c.alg)) \
 __CPROVER_ensures((WITHCB(__cmd) && __CPROVER_return_value == 0) ==> (g_cb_called && g_vc_key == g_cb_key && g_vc_alg == g_cb_alg)) \
-__CPROVER_ensures((__cmd != NULL && __CPROVER_return_value == 0 && g_vc_key != NULL) ==> SPEC_SETKEY_OK(g_vc_alg, 1, g_vc_key->alg)) \
+/* (ghost pointers set by contract assumptions are compared, never dereferenced: \
+ * cbmc resolves dereferences through value sets, which such pointers lack) */ \
+__CPROVER_ensures((__cmd != NULL && __CPROVER_return_value == 0 && g_vc_key != NULL) ==> \
+	(g_vc_key == __cmd->c.key && SPEC_SETKEY_OK(g_vc_alg, 1, __cmd->c.key->alg))) \
 __CPROVER_ensures((__cmd != NULL && __CPROVER_return_value == 0 && g_vc_key == NULL) ==> g_vc_alg == JWT_ALG_NONE)
 /* C19: a callback that fails makes verification fail; the claims that are
  * judged are the claims that were parsed, whatever the callback did */
@@ -150,6 +153,102 @@ __CPROVER_ensures((__cmd != NULL && g_cb_called && g_cb_ret != 0) ==> __CPROVER_
 __CPROVER_ensures((__cmd != NULL && __CPROVER_return_value == 0) ==> ( \
 	g_vc_has == g_parsed_has && g_vc_type == g_parsed_type && g_vc_int == g_parsed_int && g_vc_str == g_parsed_str))
 DECL_jwt_checker_verify(contract_all_jwt_checker_verify, C14_TOP_CLAUSES C01_TOP_CLAUSES C06_TOP_CLAUSES C02_TOP_CLAUSES C19_TOP_CLAUSES);
+#endif
+
+
+#ifdef VERIF_TU_BUILDER
+/* ===================== jwt_builder_generate (top level) ================= */
+/* plumbing between abstract bodies (stubs/generate_top.c) and the callback */
+extern int g_oom; extern unsigned g_dc_calls; extern const json_t *g_dc_src[2]; extern json_t *g_dc_res[2];
+extern unsigned g_cs_calls; extern char g_cs_name0[3]; extern long g_cs_val[3]; extern int g_cs_replace[3], g_cs_ret[3];
+extern const json_t *g_cs_target[3];
+extern unsigned g_hs_calls, g_enc_calls; extern jwt_alg_t g_hs_alg, g_enc_alg; extern int g_hs_ret;
+extern const jwk_item_t *g_enc_key; extern char *g_enc_ret;
+extern int g_cb_called, g_cb_ret; extern const jwk_item_t *g_cb_key; extern jwt_alg_t g_cb_alg;
+extern time_t g_now;
+#define GEN_GHOSTS g_oom, g_dc_calls, __CPROVER_object_whole(g_dc_src), __CPROVER_object_whole(g_dc_res), g_cs_calls, \
+	__CPROVER_object_whole(g_cs_name0), __CPROVER_object_whole(g_cs_val), __CPROVER_object_whole(g_cs_replace), \
+	__CPROVER_object_whole(g_cs_ret), __CPROVER_object_whole(g_cs_target), g_hs_calls, g_hs_alg, g_hs_ret, g_enc_calls, \
+	g_enc_alg, g_enc_key, g_enc_ret, g_cb_called, g_cb_ret, g_cb_key, g_cb_alg
+
+VERIF_OBS_DECL(b_claims) VERIF_OBS_DECL(b_alg) VERIF_OBS_DECL(b_haskey) VERIF_OBS_DECL(b_keyalg) VERIF_OBS_DECL(b_cb)
+VERIF_OBS_DECL(b_now) VERIF_OBS_DECL(b_off_nbf) VERIF_OBS_DECL(b_off_exp)
+
+/* a generate callback: may edit the per-call token, choose key (keep / drop) and alg, return anything */
+int contract_cb_builder(jwt_t *jwt, jwt_config_t *config)
+__CPROVER_requires(__CPROVER_rw_ok(jwt, sizeof(*jwt)) && __CPROVER_rw_ok(config, sizeof(*config)))
+__CPROVER_assigns(config->key, config->alg, g_cb_called, g_cb_ret, g_cb_key, g_cb_alg)
+__CPROVER_ensures(g_cb_called == 1 && g_cb_ret == __CPROVER_return_value && g_cb_key == config->key && g_cb_alg == config->alg)
+__CPROVER_ensures(SPEC_ALG_IN_ENUM(config->alg))
+__CPROVER_ensures(config->key == NULL || config->key == __CPROVER_old(config->key))
+;
+
+#define GEN_NOCB(B) ((B) != NULL && (B)->c.cb == NULL)
+#define GEN_WITHCB(B) ((B) != NULL && (B)->c.cb != NULL)
+/* number of time claims the builder has switched on */
+#define GEN_N_TIME(B) ((((B)->c.claims & JWT_CLAIM_IAT) ? 1 : 0) + (((B)->c.claims & JWT_CLAIM_NBF) ? 1 : 0) + (((B)->c.claims & JWT_CLAIM_EXP) ? 1 : 0))
+#define GEN_IDX_NBF(B) (((B)->c.claims & JWT_CLAIM_IAT) ? 1 : 0)
+#define GEN_IDX_EXP(B) ((((B)->c.claims & JWT_CLAIM_IAT) ? 1 : 0) + (((B)->c.claims & JWT_CLAIM_NBF) ? 1 : 0))
+
+#define DECL_jwt_builder_generate(NAME, CLAUSES) \
+char *NAME(jwt_builder_t *__cmd) \
+__CPROVER_requires(__cmd == NULL || __CPROVER_is_fresh(__cmd, sizeof(*__cmd))) \
+__CPROVER_requires(__cmd == NULL || __cmd->c.key == NULL || __CPROVER_is_fresh(__cmd->c.key, sizeof(*__cmd->c.key))) \
+__CPROVER_requires(__cmd == NULL || (__CPROVER_is_fresh(__cmd->c.headers, sizeof(json_t)) && __cmd->c.headers->type == JSON_OBJECT)) \
+__CPROVER_requires(__cmd == NULL || (__CPROVER_is_fresh(__cmd->c.payload, sizeof(json_t)) && __cmd->c.payload->type == JSON_OBJECT)) \
+__CPROVER_requires(__cmd == NULL || (SPEC_ALG_IN_ENUM(__cmd->c.alg) && (__cmd->c.key == NULL || SPEC_ALG_IN_ENUM(__cmd->c.key->alg)))) \
+__CPROVER_requires(__cmd == NULL || __cmd->c.cb == NULL || __CPROVER_obeys_contract(__cmd->c.cb, contract_cb_builder)) \
+__CPROVER_requires(__cmd == NULL || SPEC_ERRMSG_TERMINATED(__cmd)) \
+/* clock and offsets: DESIGN section 5 */ \
+__CPROVER_requires(g_now >= 0 && g_now <= (1L << 60)) \
+__CPROVER_requires(__cmd == NULL || (__cmd->c.exp >= -(1L << 40) && __cmd->c.exp <= (1L << 40) && __cmd->c.nbf >= -(1L << 40) && __cmd->c.nbf <= (1L << 40))) \
+__CPROVER_requires(g_oom == 0 && g_dc_calls == 0 && g_cs_calls == 0 && g_hs_calls == 0 && g_enc_calls == 0 && g_cb_called == 0) \
+__CPROVER_requires(__cmd == NULL || (OBS(b_claims, __cmd->c.claims) && OBS(b_alg, __cmd->c.alg) && OBS(b_haskey, __cmd->c.key != NULL) && \
+	OBS(b_keyalg, __cmd->c.key ? __cmd->c.key->alg : -1) && OBS(b_cb, __cmd->c.cb != NULL) && OBS(b_now, g_now) && \
+	OBS(b_off_nbf, __cmd->c.nbf) && OBS(b_off_exp, __cmd->c.exp))) \
+/* C10/C13 frame: generating leaves the builder unchanged but for its error state */ \
+__CPROVER_assigns(__cmd != NULL: __cmd->error, SPEC_ERRMSG_FRAME(__cmd); GEN_GHOSTS) \
+__CPROVER_ensures(__cmd == NULL ==> __CPROVER_return_value == NULL) \
+__CPROVER_ensures(__cmd == NULL || SPEC_ERRMSG_TERMINATED(__cmd)) \
+__CPROVER_ensures(__CPROVER_return_value != NULL ==> (g_enc_calls == 1 && __CPROVER_return_value == g_enc_ret)) \
+CLAUSES
+
+/* C14: NULL exactly when the flag is set with a message (allocation failure aside: C17) */
+#define C14_GEN_CLAUSES \
+__CPROVER_ensures((__cmd != NULL && __CPROVER_return_value != NULL) ==> (__cmd->error == 0 && __cmd->error_msg[0] == 0)) \
+__CPROVER_ensures((__cmd != NULL && __CPROVER_return_value == NULL && !g_oom) ==> (__cmd->error != 0 && __cmd->error_msg[0] != 0))
+/* C03 / C02: a builder given a key never emits alg none; the algorithm used is the pinned one; the
+ * callback's choice passes the (builder) admission table; without a key only alg none */
+#define C03_GEN_FOR(WHEN, K, A) \
+__CPROVER_ensures((WHEN(__cmd) && __CPROVER_return_value != NULL) ==> (g_enc_key == (K) && g_hs_calls == 1 && g_hs_alg == g_enc_alg)) \
+__CPROVER_ensures((WHEN(__cmd) && __CPROVER_return_value != NULL && (K) != NULL) ==> \
+	((K) == __cmd->c.key && g_enc_alg != JWT_ALG_NONE && __cmd->c.key->is_private_key && \
+	 SPEC_IS_PINNED(g_enc_alg, A, 1, __cmd->c.key->alg))) \
+__CPROVER_ensures((WHEN(__cmd) && __CPROVER_return_value != NULL && (K) == NULL) ==> g_enc_alg == JWT_ALG_NONE)
+#define C03_GEN_CLAUSES C03_GEN_FOR(GEN_NOCB, __cmd->c.key, __cmd->c.alg) C03_GEN_FOR(GEN_WITHCB, g_cb_key, g_cb_alg)
+/* C10: per-call copies of the builder's headers and claims; iat = now, nbf = now + offset,
+ * exp = now + offset set with replace exactly when enabled, on the copy */
+#define C10_GEN_CLAUSES \
+__CPROVER_ensures((__cmd != NULL && g_dc_calls >= 2) ==> (g_dc_calls == 2 && g_dc_src[0] == __cmd->c.headers && g_dc_src[1] == __cmd->c.payload)) \
+__CPROVER_ensures((__cmd != NULL && __CPROVER_return_value != NULL) ==> (g_dc_calls == 2 && g_cs_calls == (unsigned)GEN_N_TIME(__cmd))) \
+__CPROVER_ensures((__cmd != NULL && __CPROVER_return_value != NULL && (__cmd->c.claims & JWT_CLAIM_IAT)) ==> \
+	(g_cs_name0[0] == 'i' && g_cs_val[0] == (long)g_now && g_cs_replace[0] == 1 && g_cs_target[0] == g_dc_res[1])) \
+__CPROVER_ensures((__cmd != NULL && __CPROVER_return_value != NULL && (__cmd->c.claims & JWT_CLAIM_NBF)) ==> \
+	(g_cs_name0[GEN_IDX_NBF(__cmd)] == 'n' && g_cs_val[GEN_IDX_NBF(__cmd)] == (long)(g_now + __cmd->c.nbf) && \
+	 g_cs_replace[GEN_IDX_NBF(__cmd)] == 1 && g_cs_target[GEN_IDX_NBF(__cmd)] == g_dc_res[1])) \
+__CPROVER_ensures((__cmd != NULL && __CPROVER_return_value != NULL && (__cmd->c.claims & JWT_CLAIM_EXP)) ==> \
+	(g_cs_name0[GEN_IDX_EXP(__cmd)] == 'e' && g_cs_val[GEN_IDX_EXP(__cmd)] == (long)(g_now + __cmd->c.exp) && \
+	 g_cs_replace[GEN_IDX_EXP(__cmd)] == 1 && g_cs_target[GEN_IDX_EXP(__cmd)] == g_dc_res[1]))
+/* C19-like for the builder / C13: a failing callback fails the call */
+#define C13_GEN_CLAUSES \
+__CPROVER_ensures((__cmd != NULL && g_cb_called && g_cb_ret != 0) ==> __CPROVER_return_value == NULL)
+/* C17: a token is returned only if every step succeeded (no silently dropped iat/nbf/exp) */
+#define C17_GEN_CLAUSES \
+__CPROVER_ensures((__cmd != NULL && __CPROVER_return_value != NULL) ==> ( \
+	g_dc_res[0] != NULL && g_dc_res[1] != NULL && \
+	(g_cs_calls < 1 || g_cs_ret[0] == JWT_VALUE_ERR_NONE) && (g_cs_calls < 2 || g_cs_ret[1] == JWT_VALUE_ERR_NONE) && \
+	(g_cs_calls < 3 || g_cs_ret[2] == JWT_VALUE_ERR_NONE) && g_hs_ret == 0))
+DECL_jwt_builder_generate(contract_all_jwt_builder_generate, C14_GEN_CLAUSES C03_GEN_CLAUSES C10_GEN_CLAUSES C13_GEN_CLAUSES C17_GEN_CLAUSES);
 #endif
 
 #endif
